@@ -7,6 +7,8 @@ open SSVerif.Ranges
 #print axioms C18_clear_ok
 #print axioms C18_topn_norm_range
 #print axioms C18_topn_norm_best_zero
+#print axioms C18_topn_sorted
+#print axioms C18_frame_norm_range
 #print axioms C18_senscr_range
 #print axioms C18_path_score_bound
 #print axioms C18_path_no_wrap
